@@ -242,3 +242,17 @@ func (it *omapIter) next() tuple {
 	}
 	return tuple{false, nil, nil}
 }
+
+// appendDistinct appends an entry whose key is known to differ from every
+// key already present (copying from another map).
+func (m *omap) appendDistinct(k, v value) {
+	m.keys = append(m.keys, k)
+	m.vals = append(m.vals, v)
+	m.dead = append(m.dead, false)
+	m.n++
+	if ck, ok := concreteKey(k); ok {
+		m.idx[ck] = len(m.keys) - 1
+	} else {
+		m.nsym++
+	}
+}
